@@ -242,6 +242,213 @@ theorem rinv_grun (s : State) (ops : List GOp) (h : RInv s) : RInv (grun s ops) 
   | nil => exact h
   | cons op r ih => exact ih _ (rinv_gstep s op h)
 
+/-! ## every record's bridger is indexed to it (converse of `BInv`); hence a restart reproduces the bridger index entry for entry -/
+
+/-- `m'` has no record that `m` does not have, and records keep their bridger -/
+def BPr (m m' : Map Oracle) : Prop := ∀ a orc', m'.get a = some orc' → ∃ orc, m.get a = some orc ∧ orc.bridger = orc'.bridger
+
+theorem BPr_refl (m : Map Oracle) : BPr m m := fun _ orc h => ⟨orc, h, rfl⟩
+
+theorem BPr_trans {m1 m2 m3 : Map Oracle} (h1 : BPr m1 m2) (h2 : BPr m2 m3) : BPr m1 m3 := by
+  intro a o3 h
+  obtain ⟨o2, hg2, hb2⟩ := h2 a o3 h
+  obtain ⟨o1, hg1, hb1⟩ := h1 a o2 hg2
+  exact ⟨o1, hg1, by rw [hb1, hb2]⟩
+
+theorem BPr_set (m : Map Oracle) (o : Nat) (orc new : Oracle) (hg : m.get o = some orc) (hb : new.bridger = orc.bridger) :
+    BPr m (m.set o new) := by
+  intro a x hx
+  by_cases h : o = a
+  · subst h
+    rw [get_set_self] at hx; cases hx
+    exact ⟨orc, hg, hb.symm⟩
+  · rw [get_set_ne _ _ _ _ h] at hx; exact ⟨x, hx, rfl⟩
+
+theorem BPr_map (m : Map Oracle) (f : Nat × Oracle → Nat × Oracle) (hk : ∀ p, (f p).1 = p.1)
+    (hb : ∀ p, (f p).2.bridger = p.2.bridger) : BPr m (m.map f) := by
+  intro a orc' h
+  induction m with
+  | nil => simp [Map.get] at h
+  | cons q r ih =>
+    obtain ⟨k', v'⟩ := q
+    have e : f (k', v') = (k', (f (k', v')).2) := Prod.ext (hk (k', v')) rfl
+    rw [List.map_cons, e] at h
+    by_cases h1 : k' = a
+    · subst h1
+      simp [Map.get] at h
+      exact ⟨v', by simp [Map.get], by rw [← h]; exact (hb (k', v')).symm⟩
+    · simp [Map.get, h1] at h
+      obtain ⟨o, hg, hbr⟩ := ih h
+      exact ⟨o, by simp [Map.get, h1]; exact hg, hbr⟩
+
+theorem BPr_slashOne (m : Map Oracle) (o : Nat) : BPr m (slashOne m o) := by
+  unfold slashOne
+  split
+  · rename_i orc hg
+    split
+    · exact BPr_set m o orc _ hg rfl
+    · exact BPr_refl _
+  · exact BPr_refl _
+
+theorem BPr_foldl_slashOne (l : List Nat) (m : Map Oracle) : BPr m (l.foldl slashOne m) := by
+  induction l generalizing m with
+  | nil => exact BPr_refl _
+  | cons o r ih => exact BPr_trans (BPr_slashOne m o) (ih _)
+
+def CInv (s : State) : Prop := ∀ a orc, s.oracles.get a = some orc → s.byBridger.get orc.bridger = some a
+
+theorem cinv_of_BPr {s s' : State} (hb : s'.byBridger = s.byBridger) (hp : BPr s.oracles s'.oracles) (h : CInv s) : CInv s' := by
+  intro a orc' hg
+  obtain ⟨orc, ho, hbr⟩ := hp a orc' hg
+  rw [hb, ← hbr]; exact h a orc ho
+
+/-- two records with the same bridger are the same record -/
+theorem cinv_inj {s : State} (h : CInv s) {a a' : Nat} {o o' : Oracle} (h1 : s.oracles.get a = some o) (h2 : s.oracles.get a' = some o')
+    (hb : o.bridger = o'.bridger) : a = a' := by
+  have e1 := h a o h1
+  have e2 := h a' o' h2
+  rw [hb, e2] at e1; cases e1; rfl
+
+theorem cinv_step (s : State) (op : Op) (hC : CInv s) : CInv (step s op).1 := by
+  cases op with
+  | claim w i n h k e =>
+    have := claim_registry s w i n h k
+    simp only [] at this
+    simp only [step]
+    exact cinv_of_BPr this.2.2.1 (by rw [this.1]; exact BPr_refl _) hC
+  | bond o b e a d =>
+    simp only [step]; unfold bondStep
+    repeat' split
+    all_goals first | exact hC | skip
+    all_goals
+      rename_i _ hno hnb _ _ _ _
+      have hno' : s.oracles.get o = none := by simpa using hno
+      have hnb' : s.byBridger.get b = none := by simpa using hnb
+      intro a' orc' hg
+      simp only [applyRefresh_byBridger, applyRefresh_oracles] at hg ⊢
+      by_cases ha : o = a'
+      · subst ha
+        rw [get_set_self] at hg; cases hg
+        exact get_set_self _ _ _
+      · rw [get_set_ne _ _ _ _ ha] at hg
+        have := hC a' orc' hg
+        have hne : b ≠ orc'.bridger := by intro hc; rw [← hc, hnb'] at this; cases this
+        rw [get_set_ne _ _ _ _ hne]; exact this
+  | addDelegate o a d =>
+    simp only [step]; unfold addDelegateStep addDelegateTo
+    repeat' split
+    all_goals first | exact hC | skip
+    all_goals
+      rename_i orc hg _ _ _ _ _
+      exact cinv_of_BPr (s := s) (by simp) (by simp only [applyRefresh_oracles]; exact BPr_set s.oracles o orc _ hg rfl) hC
+  | editBridger o b =>
+    simp only [step]; unfold editBridgerStep
+    repeat' split
+    all_goals first | exact hC | skip
+    rename_i orc hgo _ hneq hnb
+    have hnb' : s.byBridger.get b = none := by simpa using hnb
+    intro a' orc' hg
+    simp only [editIndex_eq] at hg ⊢
+    by_cases ha : o = a'
+    · subst ha
+      rw [get_set_self] at hg; cases hg
+      exact get_set_self _ _ _
+    · rw [get_set_ne _ _ _ _ ha] at hg
+      have h1 := hC a' orc' hg
+      have hne : b ≠ orc'.bridger := by intro hc; rw [← hc, hnb'] at h1; cases h1
+      have hold : orc.bridger ≠ orc'.bridger := fun hc => ha (cinv_inj hC hgo hg hc)
+      rw [get_set_ne _ _ _ _ hne, get_del_ne _ _ _ hold]; exact h1
+  | unbond o u bal d =>
+    simp only [step]
+    rcases unbond_cases s o u bal d with h | ⟨orc, hgo, _, h⟩
+    · rw [h]; exact hC
+    · rw [h]
+      intro a' orc' hg
+      simp only [unbondApply] at hg ⊢
+      have ha : o ≠ a' := by intro hc; subst hc; rw [get_del_self] at hg; cases hg
+      rw [get_del_ne _ _ _ ha] at hg
+      have hold : orc.bridger ≠ orc'.bridger := fun hc => ha (cinv_inj hC hgo hg hc)
+      rw [get_del_ne _ _ _ hold]; exact hC a' orc' hg
+  | gov l d =>
+    simp only [step]; unfold govStep
+    repeat' split
+    all_goals first | exact hC | skip
+    all_goals
+      refine cinv_of_BPr (s := s) rfl (BPr_map s.oracles _ ?_ ?_) hC
+      · intro p; split <;> rfl
+      · intro p; split <;> rfl
+  | endBlock l r =>
+    simp only [step]; unfold endBlockStep
+    split
+    all_goals exact cinv_of_BPr (s := s) rfl (BPr_foldl_slashOne l s.oracles) hC
+  | exec n o c =>
+    simp only [step]
+    obtain ⟨P, L, h⟩ := exec_frame s n o c
+    rw [h]; exact hC
+
+/-- a loaded record's bridger has an entry in the rebuilt index -/
+theorem foldl_index_isSome (l : List (Nat × Oracle)) (acc : Map Nat) (b : Nat)
+    (h : (acc.get b).isSome ∨ ∃ p ∈ l, p.2.bridger = b) :
+    ((l.foldl (fun (m : Map Nat) p => m.set p.2.bridger p.1) acc).get b).isSome := by
+  induction l generalizing acc with
+  | nil =>
+    rcases h with h | ⟨p, hp, _⟩
+    · exact h
+    · cases hp
+  | cons q t ih =>
+    simp only [List.foldl_cons]
+    apply ih
+    rcases h with h | ⟨p, hp, hb⟩
+    · left
+      by_cases e : q.2.bridger = b
+      · rw [e, get_set_self]; rfl
+      · rw [get_set_ne _ _ _ _ e]; exact h
+    · rcases List.mem_cons.mp hp with e | e
+      · left; subst e; rw [hb, get_set_self]; rfl
+      · exact Or.inr ⟨p, e, hb⟩
+
+/-- a restart reproduces the bridger index ENTRY FOR ENTRY (as a function; the store order may differ) -/
+theorem roundTrip_index (s : State) (hK : KU s) (hB : BInv s) (hC : CInv s) (b : Nat) :
+    (roundTrip s).byBridger.get b = s.byBridger.get b := by
+  obtain ⟨_, hb⟩ := roundTrip_registry s hK
+  rw [hb]
+  cases hm : (s.oracles.foldl (fun (m : Map Nat) p => m.set p.2.bridger p.1) ([] : Map Nat)).get b with
+  | some a =>
+    rcases foldl_index_get s.oracles [] b a hm with h | ⟨p, hp, hpb, hpa⟩
+    · simp [Map.get] at h
+    · have := hC p.1 p.2 (get_of_mem_nodup s.oracles p.1 p.2 hK hp)
+      rw [hpb, hpa] at this; exact this.symm
+  | none =>
+    cases hs : s.byBridger.get b with
+    | none => rfl
+    | some a =>
+      obtain ⟨orc, ho, hbr⟩ := hB b a hs
+      have := foldl_index_isSome s.oracles [] b (Or.inr ⟨(a, orc), mem_of_get _ _ _ ho, hbr⟩)
+      rw [hm] at this; cases this
+
+theorem cinv_roundTrip (s : State) (hK : KU s) (hB : BInv s) (hC : CInv s) : CInv (roundTrip s) := by
+  intro a orc hg
+  rw [(roundTrip_registry s hK).1] at hg
+  rw [roundTrip_index s hK hB hC]; exact hC a orc hg
+
+structure RInv2 (s : State) : Prop where
+  ku : KU s
+  bi : BInv s
+  ci : CInv s
+
+theorem rinv2_init (p : Params) : RInv2 (init p) :=
+  ⟨by simp [KU, keys, init], by intro b a hg; simp [init, Map.get] at hg, by intro a orc hg; simp [init, Map.get] at hg⟩
+
+theorem rinv2_gstep (s : State) (op : GOp) (h : RInv2 s) : RInv2 (gstep s op).1 := by
+  cases op with
+  | op o => exact ⟨ku_step s o h.ku, binv_step s o h.bi, cinv_step s o h.ci⟩
+  | genesis => exact ⟨ku_roundTrip s h.ku, binv_roundTrip s h.ku, cinv_roundTrip s h.ku h.bi h.ci⟩
+
+theorem rinv2_grun (s : State) (ops : List GOp) (h : RInv2 s) : RInv2 (grun s ops) := by
+  induction ops generalizing s with
+  | nil => exact h
+  | cons op r ih => exact ih _ (rinv2_gstep s op h)
+
 /-! ## a claim whose handler panics -/
 
 theorem panics_not_ok_or_not_observing (s : State) (w i n h : Nat) (ms : List Nat)
